@@ -5,6 +5,7 @@ from ..core.program import norm, own_nodes
 from ..core.world import world
 from ..rules import generic as G
 from ..rules import ownership as OW
+from ..rules import extra as X
 
 EXPLANATION = (
     "Static analysis of the unfolding machinery in score.py. Decides: (F1) the original part is not modified by any of the "
@@ -103,6 +104,7 @@ def run(ctx):
     # evidence-tier: other attributes that hold timed objects
     for cname, attr in (("Fermata", "ref"), ("GenericNote", "fermata"), ("Note", "beam"), ("Beam", "notes")):
         ctx.note("REFS", f"{cname}.{attr} can hold a timed object and is not in _ref_attrs (outside the references the property enumerates)")
+    X.rule_replace_refs(ctx)
     # ---- LINKS
     ctx.rule("LINKS", "after copying, a loop over consecutive points of the new part sets tp.next / tp_next.prev for every pair")
     loops = [n for n in own_nodes(cv.node) if isinstance(n, ast.For) and "iter_current_next" in norm(n.iter) and "._points" in norm(n.iter)]
